@@ -129,6 +129,9 @@ class Report:
             self.violation(name, type(e).__name__, f"evaluating the contract raised {type(e).__name__}: {str(e)[:160]} at {where} - the code under contract left the shape the contract is stated for",
                            witness=False, solver_output="".join(traceback.format_exception_only(type(e), e))[:400])
 
+    def is_known(self, obligation, case):
+        return any(k["property"] == self.pid and k["obligation"] == obligation and k["case"] == case for k in self.known.get("findings", []))
+
     def violation(self, obligation, case, what, replay=None, witness=True, solver_output=None):
         """A failed obligation.  `case` is a canonical, solver-independent key."""
         for k in self.known.get("findings", []):
